@@ -296,7 +296,10 @@ func (t *Template) ParseFromTrustedTemplate(tmpl TrustedTemplate) (*Template, er
 func (t *Template) Clone() (*Template, error) {
 	t.nameSpace.mu.Lock()
 	defer t.nameSpace.mu.Unlock()
-	if t.escapeErr != nil {
+	// escapeErr tells whether this template was executed itself. The trees of the set may also
+	// have been rewritten by the execution of a template that New has replaced since, which
+	// only the flag of the name space records.
+	if t.escapeErr != nil || t.nameSpace.escaped {
 		return nil, fmt.Errorf("html/template: cannot Clone %q after it has executed", t.Name())
 	}
 	textClone, err := t.text.Clone()
